@@ -372,6 +372,32 @@ class EqObligation(Obligation):
                     res["detail"] = "ring normal forms differ and z3/cvc5 returned unknown"
                     res.pop("replay", None)
                 return
+        # 4b. opt-in probe with non-finite inputs (bounded): the proof is over the reals; with a NaN in a named input the
+        #     real code must still agree with the contract evaluated with IEEE comparisons (false on NaN) and select semantics
+        for nm in b.get("probe_nonfinite", ()):
+            if res["status"] != "discharged":
+                break
+            try:
+                k = [i.name for i in inputs].index(nm)
+                val = Valuation(inputs, seed + 5)
+                a_ = np.array(val.arrays[k], dtype=float, copy=True)
+                a_.reshape(-1)[0] = np.nan
+                val.arrays[k] = a_
+                key = nm if a_.ndim == 0 else nm + "[" + ",".join(["0"] * a_.ndim) + "]"
+                val.values[key] = float("nan")
+                nat = self._native(b, val)
+                exp = numeric(spec_l, val)
+                res["nonfinite_probes"] = res.get("nonfinite_probes", 0) + 1
+                if len(nat) != len(exp) or not all(close(x, y, 1e-6, 1e-8) for x, y in zip(nat, exp)):
+                    res["status"] = "violated"
+                    res["failure"] = "non-finite input"
+                    res["detail"] = (f"proved over the reals, but with a NaN in input `{nm}` the code and the contract disagree "
+                                     f"(comparisons are false on NaN; a false condition selects the other branch)")
+                    res["replay"] = {"obligation": self.name, "native_disagrees": True, "seed": val.seed, "inputs": _inputs(b, val),
+                                     "special": f"NaN in {key}", "native": [_arr(x) for x in nat], "expected": [_arr(x) for x in exp]}
+                    return
+            except Exception as e:
+                res["nonfinite_probe_error"] = str(e)[:200]
         # 5. vacuity canary
         can = b.get("canary")
         if can is not None:
